@@ -1914,3 +1914,65 @@ func (e *nilFieldEngine) passedToUser(in ssa.Instruction, w ssa.Value) string {
 	}
 	return ""
 }
+
+// ---- C01.IDX: a constant offset into a parameter rests on what the callers established ----
+
+// c01IdxCallers: s[k:], s[:k] or s[k] with a constant k on a parameter that the function itself does not test is in bounds
+// only if every caller in the package established len(argument) >= k (a length test, a comparison with "", HasPrefix /
+// HasSuffix with a constant at least that long). The obligation has its own name: an exception reviewed for the expression
+// itself ("the only caller calls under HasPrefix(spec, "docker://")") says nothing about what the caller tests today.
+func c01IdxCallers(c *Ctx, fn *ssa.Function, construct string, in ssa.Instruction, x, idx, low, high ssa.Value) {
+	prm, ok := x.(*ssa.Parameter)
+	if !ok {
+		return
+	}
+	var need int64
+	for i, v := range []ssa.Value{idx, low, high} {
+		if v == nil {
+			continue
+		}
+		k, isK := constInt(v)
+		if !isK {
+			return
+		}
+		if i == 0 {
+			k++
+		}
+		if k > need {
+			need = k
+		}
+	}
+	if need <= 0 {
+		return
+	}
+	pi := -1
+	for i, q := range fn.Params {
+		if q == prm {
+			pi = i
+		}
+	}
+	n := 0
+	short := ""
+	for _, e := range c.P.callersOf(fn) {
+		if e.Site == nil || !inPkg(e.Caller.Func, c.P.SPkg) {
+			continue
+		}
+		cc := e.Site.Common()
+		if cc.IsInvoke() || pi >= len(cc.Args) {
+			return
+		}
+		n++
+		if lb := lenLowerBound(e.Site.Block(), cc.Args[pi]); lb < need {
+			short = fmt.Sprintf("%s calls it at %s where the argument is known to have at least %d byte(s) or element(s), %d are needed", FuncName(e.Caller.Func), c.P.Pos(e.Site.Pos()), lb, need)
+		}
+	}
+	if n == 0 {
+		return
+	}
+	con := construct + " - length established by the callers"
+	if short == "" {
+		c.ok(con, in.Pos(), fmt.Sprintf("every one of the %d call site(s) in the package is dominated by a test that gives the argument at least %d byte(s) or element(s)", n, need))
+	} else {
+		c.bad(con, in.Pos(), short+": a shorter value panics")
+	}
+}
